@@ -8,8 +8,11 @@ read(5)/flush(5)/clunk(5)/remove(5) for the 9P2000 base messages, Linux
 `include/net/9p/9p.h` for the type numbers and the `P9_GETATTR_*` / `P9_SETATTR_*` bit
 values, and gVisor's p9 for Twalkgetattr / Tucreate / Tumkdir / Tumknod / Tusymlink.
 
-Notation follows the manual pages: `name[n]` is an n-byte little-endian integer, `name[s]` a
-string with a two-byte length, `qid[13]` = type[1] version[4] path[8].
+Notation follows the manual pages (quoted in the comment above each entry): `name[n]` is an
+n-byte little-endian integer, `name[s]` a string with a two-byte length, `qid[13]` =
+type[1] version[4] path[8].  Each protocol field is *bound* to the name under which the p9 API
+exposes it (the Go field path, embedded structs adding no component) so that values handed
+to / returned by the implementation can be placed on the wire by this spec alone.
 Permission-carrying `mode[4]` fields of Tlcreate / Tmkdir / Tsetattr are the ones p9 documents
 as keeping their low 12 bits only (`perm`); Tmknod's mode carries the file type and is a
 plain `mode[4]`.
@@ -28,23 +31,24 @@ abbrev perm : Kind := .atom (.masked 4 12)
 abbrev getattrMask : Kind := .atom (.masked 8 14)
 /-- valid[4] of Tsetattr: P9_SETATTR_* has 9 defined bits (0x1 … 0x100). -/
 abbrev setattrMask : Kind := .atom (.masked 4 9)
-
-def qid : List Kind := [u1, u4, u8]
-/-- the body of Rgetattr after valid[8] qid[13]. -/
-def attr : List Kind :=
-  [u4, u4, u4,            -- mode uid gid
-   u8, u8, u8, u8, u8,    -- nlink rdev size blksize blocks
-   u8, u8, u8, u8, u8, u8, u8, u8,  -- atime mtime ctime btime (sec, nsec)
-   u8, u8]                -- gen data_version
-def names : Kind := .list [.str]              -- nwname[2] nwname*(wname[s])
-def qids : Kind := .list [.int 1, .int 4, .int 8]  -- nwqid[2] nwqid*(wqid[13])
+/-- nwname[2] nwname*(wname[s]) -/
+abbrev names : Kind := .list [.str]
+/-- nwqid[2] nwqid*(wqid[13]) -/
+abbrev qids : Kind := .list qidK
+/-- packed directory entries qid[13] offset[8] type[1] name[s] -/
+abbrev dirents : Kind := .list direntK
 
 structure SpecMsg where
   name : String
   typ : Nat
-  body : List Kind
+  /-- protocol fields in wire order, each bound to its API name -/
+  fields : List (String × Kind)
   pay : PayKind := .none
 deriving DecidableEq, Repr
+
+def SpecMsg.body (m : SpecMsg) : List Kind := m.fields.map (·.2)
+def SpecMsg.desc (m : SpecMsg) : MsgDesc :=
+  ⟨m.name, m.typ, m.fields.map fun f => ⟨f.1, f.2⟩, m.pay⟩
 
 /-- P9_GETATTR_* -/
 def getattrBits : List (String × Nat) :=
@@ -57,79 +61,138 @@ def setattrBits : List (String × Nat) :=
   [("Permissions", 0x1), ("UID", 0x2), ("GID", 0x4), ("Size", 0x8), ("ATime", 0x10),
    ("MTime", 0x20), ("CTime", 0x40), ("ATimeNotSystemTime", 0x80), ("MTimeNotSystemTime", 0x100)]
 
-def tlcreate : List Kind := [u4, s, u4, perm, u4]   -- fid name flags mode gid
-def tmkdir : List Kind := [u4, s, perm, u4]         -- dfid name mode gid
-def tmknod : List Kind := [u4, s, u4, u4, u4, u4]   -- dfid name mode major minor gid
-def tsymlink : List Kind := [u4, s, s, u4]          -- fid name symtgt gid
-def rlopen : List Kind := qid ++ [u4]               -- qid iounit
-
 /-- every message p9 registers, sorted by type number. -/
 def messages : List SpecMsg := [
-  ⟨"Rlerror", 7, [u4], .none⟩,                                   -- ecode[4]
-  ⟨"Tstatfs", 8, [u4], .none⟩,                                   -- fid[4]
-  ⟨"Rstatfs", 9, [u4, u4, u8, u8, u8, u8, u8, u8, u4], .none⟩,   -- type bsize blocks bfree bavail files ffree fsid namelen
-  ⟨"Tlopen", 12, [u4, u4], .none⟩,                               -- fid flags
-  ⟨"Rlopen", 13, rlopen, .none⟩,
-  ⟨"Tlcreate", 14, tlcreate, .none⟩,
-  ⟨"Rlcreate", 15, rlopen, .none⟩,
-  ⟨"Tsymlink", 16, tsymlink, .none⟩,
-  ⟨"Rsymlink", 17, qid, .none⟩,
-  ⟨"Tmknod", 18, tmknod, .none⟩,
-  ⟨"Rmknod", 19, qid, .none⟩,
-  ⟨"Trename", 20, [u4, u4, s], .none⟩,                           -- fid dfid name
+  -- Rlerror: ecode[4]
+  ⟨"Rlerror", 7, [("Error", u4)], .none⟩,
+  -- Tstatfs: fid[4]
+  ⟨"Tstatfs", 8, [("fid", u4)], .none⟩,
+  -- Rstatfs: type[4] bsize[4] blocks[8] bfree[8] bavail[8] files[8] ffree[8] fsid[8] namelen[4]
+  ⟨"Rstatfs", 9, [("FSStat.Type", u4), ("FSStat.BlockSize", u4), ("FSStat.Blocks", u8), ("FSStat.BlocksFree", u8), ("FSStat.BlocksAvailable", u8), ("FSStat.Files", u8), ("FSStat.FilesFree", u8), ("FSStat.FSID", u8), ("FSStat.NameLength", u4)], .none⟩,
+  -- Tlopen: fid[4] flags[4]
+  ⟨"Tlopen", 12, [("fid", u4), ("Flags", u4)], .none⟩,
+  -- Rlopen: qid[13] iounit[4]
+  ⟨"Rlopen", 13, [("QID.Type", u1), ("QID.Version", u4), ("QID.Path", u8), ("IoUnit", u4)], .none⟩,
+  -- Tlcreate: fid[4] name[s] flags[4] mode[4] gid[4]
+  ⟨"Tlcreate", 14, [("fid", u4), ("Name", s), ("OpenFlags", u4), ("Permissions", perm), ("GID", u4)], .none⟩,
+  -- Rlcreate: qid[13] iounit[4]
+  ⟨"Rlcreate", 15, [("QID.Type", u1), ("QID.Version", u4), ("QID.Path", u8), ("IoUnit", u4)], .none⟩,
+  -- Tsymlink: fid[4] name[s] symtgt[s] gid[4]
+  ⟨"Tsymlink", 16, [("Directory", u4), ("Name", s), ("Target", s), ("GID", u4)], .none⟩,
+  -- Rsymlink: qid[13]
+  ⟨"Rsymlink", 17, [("QID.Type", u1), ("QID.Version", u4), ("QID.Path", u8)], .none⟩,
+  -- Tmknod: dfid[4] name[s] mode[4] major[4] minor[4] gid[4]
+  ⟨"Tmknod", 18, [("Directory", u4), ("Name", s), ("Mode", u4), ("Major", u4), ("Minor", u4), ("GID", u4)], .none⟩,
+  -- Rmknod: qid[13]
+  ⟨"Rmknod", 19, [("QID.Type", u1), ("QID.Version", u4), ("QID.Path", u8)], .none⟩,
+  -- Trename: fid[4] dfid[4] name[s]
+  ⟨"Trename", 20, [("fid", u4), ("Directory", u4), ("Name", s)], .none⟩,
+  -- Rrename: 
   ⟨"Rrename", 21, [], .none⟩,
-  ⟨"Treadlink", 22, [u4], .none⟩,
-  ⟨"Rreadlink", 23, [s], .none⟩,
-  ⟨"Tgetattr", 24, [u4, getattrMask], .none⟩,
-  ⟨"Rgetattr", 25, [getattrMask] ++ qid ++ attr, .none⟩,
-  ⟨"Tsetattr", 26, [u4, setattrMask, perm, u4, u4, u8, u8, u8, u8, u8], .none⟩, -- fid valid mode uid gid size atime(2) mtime(2)
+  -- Treadlink: fid[4]
+  ⟨"Treadlink", 22, [("fid", u4)], .none⟩,
+  -- Rreadlink: target[s]
+  ⟨"Rreadlink", 23, [("Target", s)], .none⟩,
+  -- Tgetattr: fid[4] request_mask[8]
+  ⟨"Tgetattr", 24, [("fid", u4), ("AttrMask", getattrMask)], .none⟩,
+  -- Rgetattr: valid[8] qid[13] mode[4] uid[4] gid[4] nlink[8] rdev[8] size[8] blksize[8] blocks[8] atime_sec[8] atime_nsec[8] mtime_sec[8] mtime_nsec[8] ctime_sec[8] ctime_nsec[8] btime_sec[8] btime_nsec[8] gen[8] data_version[8]
+  ⟨"Rgetattr", 25, [("Valid", getattrMask), ("Type", u1), ("Version", u4), ("Path", u8), ("Attr.Mode", u4), ("Attr.UID", u4), ("Attr.GID", u4), ("Attr.NLink", u8), ("Attr.RDev", u8), ("Attr.Size", u8), ("Attr.BlockSize", u8), ("Attr.Blocks", u8), ("Attr.ATimeSeconds", u8), ("Attr.ATimeNanoSeconds", u8), ("Attr.MTimeSeconds", u8), ("Attr.MTimeNanoSeconds", u8), ("Attr.CTimeSeconds", u8), ("Attr.CTimeNanoSeconds", u8), ("Attr.BTimeSeconds", u8), ("Attr.BTimeNanoSeconds", u8), ("Attr.Gen", u8), ("Attr.DataVersion", u8)], .none⟩,
+  -- Tsetattr: fid[4] valid[4] mode[4] uid[4] gid[4] size[8] atime_sec[8] atime_nsec[8] mtime_sec[8] mtime_nsec[8]
+  ⟨"Tsetattr", 26, [("fid", u4), ("Valid", setattrMask), ("SetAttr.Permissions", perm), ("SetAttr.UID", u4), ("SetAttr.GID", u4), ("SetAttr.Size", u8), ("SetAttr.ATimeSeconds", u8), ("SetAttr.ATimeNanoSeconds", u8), ("SetAttr.MTimeSeconds", u8), ("SetAttr.MTimeNanoSeconds", u8)], .none⟩,
+  -- Rsetattr: 
   ⟨"Rsetattr", 27, [], .none⟩,
-  ⟨"Txattrwalk", 30, [u4, u4, s], .none⟩,                        -- fid newfid name
-  ⟨"Rxattrwalk", 31, [u8], .none⟩,                               -- size[8]
-  ⟨"Txattrcreate", 32, [u4, s, u8, u4], .none⟩,                  -- fid name attr_size flags
+  -- Txattrwalk: fid[4] newfid[4] name[s]
+  ⟨"Txattrwalk", 30, [("fid", u4), ("newFID", u4), ("Name", s)], .none⟩,
+  -- Rxattrwalk: size[8]
+  ⟨"Rxattrwalk", 31, [("Size", u8)], .none⟩,
+  -- Txattrcreate: fid[4] name[s] attr_size[8] flags[4]
+  ⟨"Txattrcreate", 32, [("fid", u4), ("Name", s), ("AttrSize", u8), ("Flags", u4)], .none⟩,
+  -- Rxattrcreate: 
   ⟨"Rxattrcreate", 33, [], .none⟩,
-  ⟨"Treaddir", 40, [u4, u8, u4], .none⟩,                         -- fid offset count
-  ⟨"Rreaddir", 41, [u4, .list direntK], .dirents⟩,               -- count[4] data[count] = entries qid[13] offset[8] type[1] name[s]
-  ⟨"Tfsync", 50, [u4], .none⟩,
+  -- Treaddir: fid[4] offset[8] count[4]
+  ⟨"Treaddir", 40, [("Directory", u4), ("Offset", u8), ("Count", u4)], .none⟩,
+  -- Rreaddir: count[4] data[count]; data = entries qid[13] offset[8] type[1] name[s]
+  ⟨"Rreaddir", 41, [("Count", u4), ("Entries", dirents)], .dirents⟩,
+  -- Tfsync: fid[4]
+  ⟨"Tfsync", 50, [("fid", u4)], .none⟩,
+  -- Rfsync: 
   ⟨"Rfsync", 51, [], .none⟩,
-  ⟨"Tlock", 52, [u4, u1, u4, u8, u8, u4, s], .none⟩,             -- fid type flags start length proc_id client_id
-  ⟨"Rlock", 53, [u1], .none⟩,                                    -- status[1]
-  ⟨"Tlink", 70, [u4, u4, s], .none⟩,                             -- dfid fid name
+  -- Tlock: fid[4] type[1] flags[4] start[8] length[8] proc_id[4] client_id[s]
+  ⟨"Tlock", 52, [("fid", u4), ("Type", u1), ("Flags", u4), ("Start", u8), ("Length", u8), ("PID", u4), ("Client", s)], .none⟩,
+  -- Rlock: status[1]
+  ⟨"Rlock", 53, [("Status", u1)], .none⟩,
+  -- Tlink: dfid[4] fid[4] name[s]
+  ⟨"Tlink", 70, [("Directory", u4), ("Target", u4), ("Name", s)], .none⟩,
+  -- Rlink: 
   ⟨"Rlink", 71, [], .none⟩,
-  ⟨"Tmkdir", 72, tmkdir, .none⟩,
-  ⟨"Rmkdir", 73, qid, .none⟩,
-  ⟨"Trenameat", 74, [u4, s, u4, s], .none⟩,                      -- olddirfid oldname newdirfid newname
+  -- Tmkdir: dfid[4] name[s] mode[4] gid[4]
+  ⟨"Tmkdir", 72, [("Directory", u4), ("Name", s), ("Permissions", perm), ("GID", u4)], .none⟩,
+  -- Rmkdir: qid[13]
+  ⟨"Rmkdir", 73, [("QID.Type", u1), ("QID.Version", u4), ("QID.Path", u8)], .none⟩,
+  -- Trenameat: olddirfid[4] oldname[s] newdirfid[4] newname[s]
+  ⟨"Trenameat", 74, [("OldDirectory", u4), ("OldName", s), ("NewDirectory", u4), ("NewName", s)], .none⟩,
+  -- Rrenameat: 
   ⟨"Rrenameat", 75, [], .none⟩,
-  ⟨"Tunlinkat", 76, [u4, s, u4], .none⟩,                         -- dirfd name flags
+  -- Tunlinkat: dirfd[4] name[s] flags[4]
+  ⟨"Tunlinkat", 76, [("Directory", u4), ("Name", s), ("Flags", u4)], .none⟩,
+  -- Runlinkat: 
   ⟨"Runlinkat", 77, [], .none⟩,
-  ⟨"Tversion", 100, [u4, s], .none⟩,                             -- msize version
-  ⟨"Rversion", 101, [u4, s], .none⟩,
-  ⟨"Tauth", 102, [u4, s, s, u4], .none⟩,                         -- afid uname aname n_uname
-  ⟨"Rauth", 103, qid, .none⟩,
-  ⟨"Tattach", 104, [u4, u4, s, s, u4], .none⟩,                   -- fid afid uname aname n_uname
-  ⟨"Rattach", 105, qid, .none⟩,
-  ⟨"Tflush", 108, [u2], .none⟩,                                  -- oldtag[2]
+  -- Tversion: msize[4] version[s]
+  ⟨"Tversion", 100, [("MSize", u4), ("Version", s)], .none⟩,
+  -- Rversion: msize[4] version[s]
+  ⟨"Rversion", 101, [("MSize", u4), ("Version", s)], .none⟩,
+  -- Tauth: afid[4] uname[s] aname[s] n_uname[4]
+  ⟨"Tauth", 102, [("Authenticationfid", u4), ("UserName", s), ("AttachName", s), ("UID", u4)], .none⟩,
+  -- Rauth: aqid[13]
+  ⟨"Rauth", 103, [("Type", u1), ("Version", u4), ("Path", u8)], .none⟩,
+  -- Tattach: fid[4] afid[4] uname[s] aname[s] n_uname[4]
+  ⟨"Tattach", 104, [("fid", u4), ("Auth.Authenticationfid", u4), ("Auth.UserName", s), ("Auth.AttachName", s), ("Auth.UID", u4)], .none⟩,
+  -- Rattach: qid[13]
+  ⟨"Rattach", 105, [("Type", u1), ("Version", u4), ("Path", u8)], .none⟩,
+  -- Tflush: oldtag[2]
+  ⟨"Tflush", 108, [("OldTag", u2)], .none⟩,
+  -- Rflush: 
   ⟨"Rflush", 109, [], .none⟩,
-  ⟨"Twalk", 110, [u4, u4, names], .none⟩,                        -- fid newfid nwname[2] nwname*(wname[s])
-  ⟨"Rwalk", 111, [qids], .none⟩,
-  ⟨"Tread", 116, [u4, u8, u4], .none⟩,                           -- fid offset count
-  ⟨"Rread", 117, [], .data⟩,                                     -- count[4] data[count]
-  ⟨"Twrite", 118, [u4, u8], .data⟩,                              -- fid offset count[4] data[count]
-  ⟨"Rwrite", 119, [u4], .none⟩,
-  ⟨"Tclunk", 120, [u4], .none⟩,
+  -- Twalk: fid[4] newfid[4] nwname[2] nwname*(wname[s])
+  ⟨"Twalk", 110, [("fid", u4), ("newFID", u4), ("Names", names)], .none⟩,
+  -- Rwalk: nwqid[2] nwqid*(wqid[13])
+  ⟨"Rwalk", 111, [("QIDs", qids)], .none⟩,
+  -- Tread: fid[4] offset[8] count[4]
+  ⟨"Tread", 116, [("fid", u4), ("Offset", u8), ("Count", u4)], .none⟩,
+  -- Rread: count[4] data[count]
+  ⟨"Rread", 117, [], .data⟩,
+  -- Twrite: fid[4] offset[8] count[4] data[count]
+  ⟨"Twrite", 118, [("fid", u4), ("Offset", u8)], .data⟩,
+  -- Rwrite: count[4]
+  ⟨"Rwrite", 119, [("Count", u4)], .none⟩,
+  -- Tclunk: fid[4]
+  ⟨"Tclunk", 120, [("fid", u4)], .none⟩,
+  -- Rclunk: 
   ⟨"Rclunk", 121, [], .none⟩,
-  ⟨"Tremove", 122, [u4], .none⟩,
+  -- Tremove: fid[4]
+  ⟨"Tremove", 122, [("fid", u4)], .none⟩,
+  -- Rremove: 
   ⟨"Rremove", 123, [], .none⟩,
-  ⟨"Twalkgetattr", 126, [u4, u4, names], .none⟩,
-  ⟨"Rwalkgetattr", 127, [getattrMask] ++ attr ++ [qids], .none⟩,
-  ⟨"Tucreate", 128, tlcreate ++ [u4], .none⟩,                    -- Tlcreate + uid[4]
-  ⟨"Rucreate", 129, rlopen, .none⟩,
-  ⟨"Tumkdir", 130, tmkdir ++ [u4], .none⟩,
-  ⟨"Rumkdir", 131, qid, .none⟩,
-  ⟨"Tumknod", 132, tmknod ++ [u4], .none⟩,
-  ⟨"Rumknod", 133, qid, .none⟩,
-  ⟨"Tusymlink", 134, tsymlink ++ [u4], .none⟩,
-  ⟨"Rusymlink", 135, qid, .none⟩
+  -- Twalkgetattr: fid[4] newfid[4] nwname[2] nwname*(wname[s])   (gVisor .Google.2)
+  ⟨"Twalkgetattr", 126, [("fid", u4), ("newFID", u4), ("Names", names)], .none⟩,
+  -- Rwalkgetattr: valid[8] attr (as Rgetattr after the qid) nwqid[2] nwqid*(wqid[13])   (gVisor .Google.2)
+  ⟨"Rwalkgetattr", 127, [("Valid", getattrMask), ("Attr.Mode", u4), ("Attr.UID", u4), ("Attr.GID", u4), ("Attr.NLink", u8), ("Attr.RDev", u8), ("Attr.Size", u8), ("Attr.BlockSize", u8), ("Attr.Blocks", u8), ("Attr.ATimeSeconds", u8), ("Attr.ATimeNanoSeconds", u8), ("Attr.MTimeSeconds", u8), ("Attr.MTimeNanoSeconds", u8), ("Attr.CTimeSeconds", u8), ("Attr.CTimeNanoSeconds", u8), ("Attr.BTimeSeconds", u8), ("Attr.BTimeNanoSeconds", u8), ("Attr.Gen", u8), ("Attr.DataVersion", u8), ("QIDs", qids)], .none⟩,
+  -- Tucreate: Tlcreate + uid[4]   (gVisor .Google.3)
+  ⟨"Tucreate", 128, [("fid", u4), ("Name", s), ("OpenFlags", u4), ("Permissions", perm), ("GID", u4), ("UID", u4)], .none⟩,
+  -- Rucreate: = Rlcreate
+  ⟨"Rucreate", 129, [("QID.Type", u1), ("QID.Version", u4), ("QID.Path", u8), ("IoUnit", u4)], .none⟩,
+  -- Tumkdir: Tmkdir + uid[4]
+  ⟨"Tumkdir", 130, [("Directory", u4), ("Name", s), ("Permissions", perm), ("GID", u4), ("UID", u4)], .none⟩,
+  -- Rumkdir: = Rmkdir
+  ⟨"Rumkdir", 131, [("QID.Type", u1), ("QID.Version", u4), ("QID.Path", u8)], .none⟩,
+  -- Tumknod: Tmknod + uid[4]
+  ⟨"Tumknod", 132, [("Directory", u4), ("Name", s), ("Mode", u4), ("Major", u4), ("Minor", u4), ("GID", u4), ("UID", u4)], .none⟩,
+  -- Rumknod: = Rmknod
+  ⟨"Rumknod", 133, [("QID.Type", u1), ("QID.Version", u4), ("QID.Path", u8)], .none⟩,
+  -- Tusymlink: Tsymlink + uid[4]
+  ⟨"Tusymlink", 134, [("Directory", u4), ("Name", s), ("Target", s), ("GID", u4), ("UID", u4)], .none⟩,
+  -- Rusymlink: = Rsymlink
+  ⟨"Rusymlink", 135, [("QID.Type", u1), ("QID.Version", u4), ("QID.Path", u8)], .none⟩
 ]
 
 /-- the spec's one-line serialiser: size[4] type[1] tag[2] body payload. -/
